@@ -664,6 +664,11 @@ def check(plan_, ans, tmpdir):
                 disagree(what + ': the bytes at the file positions the model names are not the values sarpy returned', a, numpy.asarray(g).ravel().tolist(), sub)
                 break
     stats['classes'] = len(stats['classes'])
+    stats['rule'] = ('hand-assembled NITF 2.1 files: every IMODE (B P R S) x single / multi band x every (reverse_axes, transpose_axes) once per run, '
+                     'I/Q and Q/I pairs, random cases (1-4 bands, 8/16/32 bit, grids single0 / single / singlepad / exact / pad / mixed0, mask none / '
+                     'full / with absent blocks, shuffled recorded blocks), 2-3 segment collections stacked by rows; path (memmap) or BytesIO '
+                     '(file-read); full + random normalised sub-regions (steps +-1 +-2 +-3), formatted and raw; classes = distinct (collection?, '
+                     'IMODEs, bands, complex, bits, grids, mask kinds, reverse set, transpose, access) tuples')
     return dis, fails, stats
 
 
